@@ -212,6 +212,13 @@ def proc_psd_spec(spec):
         if PSD.ndim > 2:
             raise ValueError("the PSD input in `spec` has more than 2 dimensions.")
         npsds = 1 if PSD.ndim == 1 else PSD.shape[1]
+    if Freq.dtype.kind in "iub":
+        # integer tables: work in double precision (narrow types
+        # would wrap around or be promoted to half/single precision)
+        Freq = Freq.astype(float)
+    if PSD.dtype.kind in "iub":
+        PSD = PSD.astype(float)
+
     # check for nans in Freq:
     pv = np.isnan(Freq)
     if pv.any():
